@@ -3,7 +3,7 @@
 ENGINES = [
     {'name': 'vloop', 'path': 'vp/vloop.py', 'serves_properties': ['C03'], 'kind_free_text': 'virtual asyncio loop with explicit, classified ready-queue (order-preserving-delay scheduler seam)'},
     {'name': 'explore', 'path': 'vp/explore.py', 'serves_properties': ['C03'], 'kind_free_text': 'deviation-bounded stateless schedule explorer (replay prefix on fresh objects, divergence = harness error)'},
-    {'name': 'enumerate', 'path': 'vp/props/*.py', 'serves_properties': ['C02', 'C04'], 'kind_free_text': 'bounded-exhaustive enumeration of inputs/histories against a Python reference model, executed on the real code'},
+    {'name': 'enumerate', 'path': 'vp/props/*.py', 'serves_properties': ['C01', 'C02', 'C04', 'C14', 'C15', 'C18'], 'kind_free_text': 'bounded-exhaustive enumeration of inputs/histories against a Python reference model, executed on the real code'},
 ]
 
 NOTES = ('All checks drive the real bumble code imported from /repo\'s working tree; no model in another language. '
@@ -33,6 +33,35 @@ CLAIMS['C03'] = {
     'technique': 'bounded-exhaustive enumeration of command packets x link situations on the real Host/Controller pair, deviation-bounded exhaustive schedule exploration of concurrent callers, and fault-point enumeration over every message boundary of pending procedures',
     'text': 'reply: every registered HCI command class (389 opcodes incl. vendor and unregistered ones) with parameter blocks varied byte-wise and handle/address fields aimed at live and dead objects, in 4 link situations (fresh, LE-connected, classic-connected, controller without link): exactly one Command Complete/Status with that opcode, caller completes, a later command is answered. serialise: 6 scripts of 2-5 concurrent callers on one/both hosts (also while an LE connection is being established), all order-preserving host<->controller/link delivery delays up to 1 (quick) / 3 (thorough) deviations: never two commands outstanding, every response matches the outstanding opcode, every caller finishes. procedure: 10 pending procedures x situations x {peer disconnects, local disconnect, peer vanishes} injected before every message delivery: an accepted procedure is concluded by exactly one completion event.',
     'note': 'Only the virtual controller is in scope. Commands are well-formed for their class. Response timeouts and caller cancellation are outside the stated space and not explored. 12 recorded findings (no link-loss detection; CIS reject/teardown not implemented) are listed in known_findings.json.',
+}
+
+CLAIMS['C01'] = {
+    'level': 'exploration',
+    'engine': 'enumerate',
+    'technique': 'bounded-exhaustive enumeration of field-value assignments (<=k fields off their simplest boundary value) over every registered HCI class, both construction directions, against an independent reference encoder',
+    'text': 'All registered command/event/LE-sub-event/vendor classes (counted at run time, 292) and their return-parameter classes, every field at boundary values per width/sign/endianness/array/length-prefix kind, repeated groups with 0..3 items, <=2 (quick) / <=3 (thorough) fields off default; ACL/SCO/ISO header grids; unregistered opcodes/event codes/sub-event codes/vendor bytes with 3 parameter lengths; Command Complete in SUCCESS, long error, status-only and prefix forms. Oracles: fields->bytes->parse gives the same class and values; parsed->rebuilt from field values->bytes identical; wire format equals an independent encoder of the declared spec; PacketParser frames the bytes as one packet.',
+    'note': 'A per-class layout mistake that is symmetric in encoder and parser is only visible where the independent reference covers it (field codec and data-packet headers). Mid-range values are not visited.',
+}
+CLAIMS['C14'] = {
+    'level': 'exploration',
+    'engine': 'enumerate',
+    'technique': 'bounded-exhaustive differential enumeration of both crypto back ends against an independent reference implementation, incl. exhaustive model check of the built-in EC arithmetic on small prime-order curves',
+    'text': 'Spec vectors (FIPS-197, RFC 4493, Core Vol 3 Part H App. D, P-256 debug keys); AES e over structured key/block sets hitting every table entry; AES-CMAC for every length 0..80 (thorough 0..160 + larger boundaries) x 9 keys; every SMP toolbox function with <=2/3 arguments off the spec vector; P-256 public-key derivation, ECDH vs reference and symmetry within/across back ends; 91 invalid peer keys x 9 scalars must be rejected by both back ends; the real built-in curve code instantiated on tiny prime-order curves: ALL coordinate pairs of F_p^2 x ALL scalars (p=23, 97; thorough p=251) vs a brute-force affine reference; RPA generate/resolve for structured prand sets (thorough: all 2^22 prands for several IRK/back-end combinations).',
+    'note': 'Small-scope coverage of a 2^128/2^256 input space; the reference (vp/harness/c14_ref.py) is self-tested against the spec vectors at start.',
+}
+CLAIMS['C15'] = {
+    'level': 'model_checking',
+    'engine': 'enumerate',
+    'technique': 'explicit-state BFS over operation histories of the real JsonKeyStore with a dict reference model in lock-step, plus exhaustive crash-point x unflushed-prefix enumeration over an intercepted file layer',
+    'text': 'BFS (depth 4-5 quick, 6-12 thorough) over update/delete/delete_all/get/get_all/resolving/reopen on 2-3 stores sharing a file (named namespaces, default namespace alone, default+named), state = file bytes + live store fields; after every transition the op result, raw file and every read API from same and fresh instances equal the model, per namespace. For every mutating op out of every state up to depth 2 (3): the on-disk image if the process died before each file-system step (open, mkdir, each write, close, replace) x 4 unflushed-prefix classes must parse and equal the model before or after the op, and a further update must succeed. PairingKeys round-trip over a boundary field domain. The in-memory file layer is cross-checked against a real scratch directory.',
+    'note': 'Crash model = process death (no fsync demanded, os.replace atomic). update() semantics = per-field overwrite as implemented and documented. Only open/os/pathlib routes as seen from bumble.keys are intercepted.',
+}
+CLAIMS['C18'] = {
+    'level': 'exploration',
+    'engine': 'enumerate',
+    'technique': 'bounded-exhaustive enumeration of every registered PDU class x boundary field values and length-encoding boundaries, both directions, incl. exhaustive ERTM control fields and operation-history pairs for process-wide registries',
+    'text': 'Every registered class of L2CAP signalling (20), ATT (30), SMP (14), SDP (7) + data elements (all types, sizes 0/1/255/256/65535/65536, nesting 1..33), RFCOMM frames (types x C/R x DLCI x P/F x lengths 0,1,126..129,32767 x credit octet) and MCC/PN/MSC, AVDTP (38) + capabilities + codec info, AVCTP/AVC/AVRCP (54), RTP, advertising data (all AD types), addresses and UUIDs; all 32768+1024 ERTM control-field values; construct->bytes->parse equals and parse->rebuild->bytes identical, against encoders written in the check; history clause: all 156 one/two-operation prefixes over a 12-op alphabet x 3 UUID widths, registry-unchanged check, and the whole enumeration run forwards and reversed in one process with identical per-case outcomes.',
+    'note': 'Values between boundary points are not visited. Two recorded findings (AV/C extended subunit ids, AVRCP generic player setting values) are listed in known_findings.json. Four spec deviations that bumble reads back consistently are reported in the evidence, not judged.',
 }
 
 NOT_CLAIMED = {}
